@@ -30,6 +30,8 @@ CHECKS = {
             "file sizes are solver variables; both content-path choices; float rounding closed by a bit-precise z3 lemma"),
     "C16": ("5/C04-C05-C16", "symbolic execution (symx) of the recheck iterators vs a reference piece table; percentage compared as exact rational; z3",
             "file sizes, truncation lengths and flip offsets are solver variables"),
+    "C12": ("5/C12", "symbolic execution (symx) of normalize_piece_length/get_piece_length/MetaFile.__init__ over a symbolic integer (|x|<2^64 and up to 2^1100) and symbolic character-class strings; z3 LIA + bit decomposition + QF_FP lemmas",
+            "the argument (integer, or string of <= 8 symbolic character classes) and the payload sizes are solver variables; floats havoc'd and confirmed by replay"),
     "C15": ("5/C15", "symbolic execution (symx) of TorrentFile(align=True)/Hasher vs gap arithmetic and BEP 3 reference; z3",
             "file sizes and listing order are solver variables; modulo by a concrete piece length stays linear"),
 }
